@@ -420,8 +420,28 @@ impl<T: Transport, E: UtpEnvironment> Dispatcher<T, E> {
                 MatchSynWithAccept::Matched => continue,
                 MatchSynWithAccept::SynInvalid(sender) => {
                     self.accept_queue.next_available_acceptor = Some(sender);
+                    #[cfg(librqbit_utp_verif)]
+                    verif_event!(
+                        self.env,
+                        "tab",
+                        local = self.socket.bind_addr(),
+                        what = "syn_clash_cached",
+                        streams = self.streams.len(),
+                        syns = self.accept_queue.syns.len(),
+                        limit = self.socket.opts.max_active_streams.get(),
+                    );
                 }
                 MatchSynWithAccept::ReceiverDead(syn) => {
+                    #[cfg(librqbit_utp_verif)]
+                    verif_event!(
+                        self.env,
+                        "tab",
+                        local = self.socket.bind_addr(),
+                        what = "acceptor_dead",
+                        streams = self.streams.len(),
+                        syns = self.accept_queue.syns.len() + 1,
+                        limit = self.socket.opts.max_active_streams.get(),
+                    );
                     self.accept_queue.syns.push_front(syn);
                 }
                 MatchSynWithAccept::Full(syn, acceptor) => {
@@ -661,6 +681,18 @@ impl<T: Transport, E: UtpEnvironment> Dispatcher<T, E> {
             remote,
             header: msg.header,
         };
+        #[cfg(librqbit_utp_verif)]
+        verif_event!(
+            self.env,
+            "syn_arrived",
+            local = self.socket.bind_addr(),
+            remote = remote,
+            cid = syn.header.connection_id + 1,
+            syn_cid = syn.header.connection_id,
+            syn_seq = syn.header.seq_nr,
+            streams = self.streams.len(),
+            syns = self.accept_queue.syns.len(),
+        );
         while let Some(acceptor) = self.accept_queue.try_next_acceptor() {
             match self.match_syn_with_accept(syn, acceptor) {
                 MatchSynWithAccept::Matched => return Ok(()),
@@ -670,6 +702,20 @@ impl<T: Transport, E: UtpEnvironment> Dispatcher<T, E> {
                     self.verif_tab("syn_clash", remote, 0.into());
                     return Ok(());
                 }
+                #[cfg(librqbit_utp_verif)]
+                MatchSynWithAccept::ReceiverDead(s) => {
+                    verif_event!(
+                        self.env,
+                        "tab",
+                        local = self.socket.bind_addr(),
+                        what = "acceptor_dead",
+                        streams = self.streams.len(),
+                        syns = self.accept_queue.syns.len(),
+                        limit = self.socket.opts.max_active_streams.get(),
+                    );
+                    syn = s
+                }
+                #[cfg(not(librqbit_utp_verif))]
                 MatchSynWithAccept::ReceiverDead(s) => syn = s,
                 MatchSynWithAccept::Full(s, acceptor) => {
                     self.accept_queue.next_available_acceptor = Some(acceptor);
